@@ -46,7 +46,62 @@ def c01(tier, seed):
     return res.finish()
 
 
-CHECKS = {"C01": c01}
+def mc_cfg(res, name, expect=None, timeout=900):
+    res.add_mc(name, core.tlc_mc("NutsMC", read_cfg(name + ".cfg"), timeout=timeout), expect_violation=expect)
+
+
+def ds_check(pid, kind, fam, mc, tier, seed, gen_quick, gen_thorough, what):
+    """Common shape of C05/C06/C07: design MC, exhaustive spec->code replay
+    (through transactions and on the exported type), random long histories."""
+    res = Result(pid, tier, seed)
+    core.build()
+    mc_cfg(res, mc)
+    # spec -> code: every transition of the bounded model, emitted by TLC
+    path, g, n = core.gen_transitions("DsGen_%s.cfg" % kind, gen_quick if tier == "quick" else gen_thorough)
+    res.add_mc("DsGen_%s" % kind, g)
+    res.extra["emitted_transitions"] = n
+    lay = "1"
+    if kind == "zset":
+        lay = "2" if tier == "quick" else "16"
+    shards = [["@replay", "-in", path, "-mode", "tx", "-layouts", lay, "-seed", str(seed)],
+              # on the exported types only the SMove deviation applies (F-C06-1 and F-C07-1 are Tx-level)
+              ["@replay", "#dev=F-C06-2", "-in", path, "-mode", "ds", "-layouts", lay, "-seed", str(seed)]]
+    # code -> spec: long random sequences through transactions
+    nseed = 3 if tier == "quick" else 40
+    hist, steps = (3, 60) if tier == "quick" else (4, 300)
+    for s in seeds(seed, nseed):
+        shards.append(["-family", fam, "-seed", str(s), "-hist", str(hist), "-steps", str(steps)])
+    rs = core.drive_and_validate(res, shards, core.dev_set(), what,
+                                 "exhaustive %s transitions (tx and exported type) + random %s histories" % (kind, fam))
+    res.cov["samples"] = core.sample_events(path, 3) + core.sample_events(rs[0]["trace"], 6, ops=None)[3:]
+    res.cov["exhaustive"] = True
+    res.cov["distinct_nontrivial"] = n
+    res.cov["rule"] = ("every (state, call, arguments) transition of the bounded DsGen model is emitted once by TLC and "
+                       "executed through Tx and on the exported type; distinct_nontrivial = number of distinct emitted "
+                       "transitions; evaluations = recorded events validated by TLC (replay + random histories)")
+    res.assumptions += ["exhaustive only within the bound stated in spec/gen/DsGen_%s.cfg" % kind,
+                        "in-transaction read-your-writes is out of scope here (C13)"]
+    return res.finish()
+
+
+def c05(tier, seed):
+    return ds_check("C05", "list", "list", "NutsMC_ls", tier, seed, {}, {"MaxLen": "= 4"},
+                    "list call result or resulting list differs from the Redis-list model")
+
+
+def c06(tier, seed):
+    return ds_check("C06", "set", "set", "NutsMC_st", tier, seed, {"GVals": '= {"a", ""}'}, {},
+                    "set call result or resulting sets differ from the set model")
+
+
+def c07(tier, seed):
+    return ds_check("C07", "zset", "zset", "NutsMC_zs", tier, seed,
+                    {"GVals": '= {"v"}', "GKeys": "<- GKeys3", "MaxLen": "= 2", "GLim": "= 1"},
+                    {"GVals": '= {"v"}'},
+                    "sorted-set call result or resulting order differs from the (score,key) model")
+
+
+CHECKS = {"C01": c01, "C05": c05, "C06": c06, "C07": c07}
 
 
 def main(argv):
